@@ -619,4 +619,6 @@ VARIANTS += [
     fire('r10-registry-by-class-name', ['C01'], [('autobean_refactor/models/internal/registry.py', "    TREE_MODELS[cls.RULE] = cls\n", "    TREE_MODELS.setdefault(cls.RULE, cls)\n    TREE_MODELS[cls.__name__.lower()] = cls\n")], 'REG-SEM'),
     fire('r10-registry-first-wins-token', ['C01'], [('autobean_refactor/models/internal/registry.py', "    TOKEN_MODELS[cls.RULE] = cls\n    return cls", "    TOKEN_MODELS[cls.RULE] = cls\n    return TOKEN_MODELS[cls.RULE.upper()]")], 'REG-SEM'),
     silent('r10-twin-registry-update', ['C01'], [('autobean_refactor/models/internal/registry.py', "    TREE_MODELS[cls.RULE] = cls\n", "    TREE_MODELS.update({cls.RULE: cls})\n")]),
+    fire('r10-raw-index-identity-first', ['C10', 'C05'], [(PR, "    def __deepcopy__(self, memo: dict[int, Any]) -> 'RepeatedNodeWrapper':\n        repeated = copy.deepcopy(self._repeated, memo)\n        return RepeatedNodeWrapper(repeated, self._field)", "    def index(self, value: Any, start: int = 0, stop: Optional[int] = None) -> int:\n        items = self._repeated.items\n        candidates = range(*slice(start, stop).indices(len(items)))\n        for i in candidates:\n            if items[i] is value:\n                return i\n        for i in candidates:\n            if items[i] == value:\n                return i\n        raise ValueError(f'{value!r} is not in list')\n\n    def __deepcopy__(self, memo: dict[int, Any]) -> 'RepeatedNodeWrapper':\n        repeated = copy.deepcopy(self._repeated, memo)\n        return RepeatedNodeWrapper(repeated, self._field)")], 'NODE-SEM'),
+    silent('r10-twin-raw-index-single-pass', ['C10', 'C05', 'C03', 'C19'], [(PR, "    def __deepcopy__(self, memo: dict[int, Any]) -> 'RepeatedNodeWrapper':\n        repeated = copy.deepcopy(self._repeated, memo)\n        return RepeatedNodeWrapper(repeated, self._field)", "    def index(self, value: Any, start: int = 0, stop: Optional[int] = None) -> int:\n        items = self._repeated.items\n        for i in range(*slice(start, stop).indices(len(items))):\n            if items[i] is value or items[i] == value:\n                return i\n        raise ValueError(f'{value!r} is not in list')\n\n    def count(self, value: Any) -> int:\n        return sum(1 for item in self._repeated.items if item is value or item == value)\n\n    def __contains__(self, value: Any) -> bool:\n        return any(item is value or item == value for item in self._repeated.items)\n\n    def __deepcopy__(self, memo: dict[int, Any]) -> 'RepeatedNodeWrapper':\n        repeated = copy.deepcopy(self._repeated, memo)\n        return RepeatedNodeWrapper(repeated, self._field)")]),
 ]
